@@ -268,7 +268,14 @@ def solve_loop(run, src):
     eng.overrides["system.System._sys_init"] = sys_init
     eng.overrides["system.System._fwd_prop"] = fwd
     eng.overrides["system.System._back_prop"] = back
-    eng.np.methods["allclose"] = lambda e, a, b, rtol=None, **k: SV(CLOSE(a.z, b.z, to_z(rtol, "real")), "bool")
+    CLOSE_A = z3.Function("allclose_atol", Vec, Vec, Rl, Rl, Bo)
+    def allclose(e, a, b, rtol=None, atol=None, **k):
+        if k: raise Unsupported("np.allclose with %s" % sorted(k))
+        if rtol is None: raise Unsupported("np.allclose without rtol")
+        if atol is None or (not is_sym(atol) and float(atol) == 1e-8):
+            return SV(CLOSE(a.z, b.z, to_z(rtol, "real")), "bool")           # numpy's default absolute tolerance
+        return SV(CLOSE_A(a.z, b.z, to_z(rtol, "real"), to_z(atol, "real")), "bool")     # another absolute tolerance is another predicate
+    eng.np.methods["allclose"] = allclose
     SLICE = z3.Function("vec_slice", Vec, I, I, Vec)     # a part of a vector is not the vector: agreement on a slice does not give convergence
     eng.opaque_slice = lambda e, b, lo, hi, st: SV(SLICE(b.z, to_z(lo) if lo is not None else z3.IntVal(0), to_z(hi) if hi is not None else z3.IntVal(-1)))
     from pyvc.engine import Builtin
@@ -414,7 +421,9 @@ def _solve_prelude(run, src, fn, prelude, outer, phase_prelude):
     obls = []
     PHDEF = z3.Function("phase_defined", NAME, Bo); NPH = z3.Int("n_phases")
     phase = z3.Const("phase_arg", NAME)
-    keysobj = Opaque("phases.keys", contains=lambda e, item: PHDEF(to_z(item)), methods={"len": lambda e: SV(NPH, "int")})
+    keysobj = Opaque("phases.keys", contains=lambda e, item: PHDEF(to_z(item)),
+                     methods={"len": lambda e: SV(NPH, "int"), "eq": lambda e, other: (NPH <= 0) if (isinstance(other, (list, tuple)) and len(other) == 0) else (_ for _ in ()).throw(Unsupported("phase names compared with a non-empty literal"))},
+                     truth=lambda e: NPH > 0)
     phases = Opaque("phases", methods={"keys": lambda e: keysobj})
     gattrs = HMap(lambda key: {"phases": phases}[key], label="self._g.attrs")
     g = HMap(lambda n: None); g.attrs = {"attrs": gattrs}
@@ -514,7 +523,7 @@ def _solve_node_slice(run, src, fn, inner, colblock):
         def pri(e, pstate, vc):
             e.event("pri", pstate=pstate, vc=vc, node=cz)
             return SV(H.SEL(cz), "int")
-        ctype = Opaque("ctype", attrs={"name": SV(TYPE(cz), "name")})
+        ctype = enum_like(TYPE(cz))
         return Opaque("comp", attrs={"_params": {"name": SV(H.NAME(cz), "name"), "rs": SV(H.RS(cz), "real")}, "_component_type": ctype},
                       methods={"_get_pri_inp": pri, "_solv_pwr_loss": pwr, "_solv_get_warns": warns})
     gattrs = HMap(lambda key: {"groups": HMap(lambda nm: SV(H.GROUP(to_z(nm)), "name")), "rails": HMap(lambda nm: SV(H.RAIL(to_z(nm)), "name"))}[key], label="self._g.attrs")
@@ -772,7 +781,7 @@ def find_domain(run, src):
         eng = Engine(src)
         def comp(c):
             cz = to_z(c)
-            return Opaque("comp", attrs={"_params": {"name": SV(H.NAME(cz), "name")}, "_component_type": Opaque("ctype", attrs={"name": SV(TYPE(cz), "name")})})
+            return Opaque("comp", attrs={"_params": {"name": SV(H.NAME(cz), "name")}, "_component_type": enum_like(TYPE(cz))})
         g = HMap(comp, label="self._g")
         g_in = lambda e, i_: SV(INDEG(to_z(i_)), "int")
         gobj = Opaque("g", getitem=lambda e, c: comp(c), methods={"in_degree": g_in})
